@@ -27,6 +27,7 @@
 // answers "R <id> NOTBUILT".
 //
 // Input:   DATA <N> <D> <N*D hex doubles, sample-major>
+//          TRAITS                         -> "I <callback class> <is_dummy<class>::value>" ..., "IEND"
 //          NEEDS <method> ...             -> "N <method> <needs_kernel needs_distance needs_features as 0/1>" ..., "NEND"
 //          RUN id=<n> m=<method> fam=<M|E|U|O> back=<eigen|hand|pre> src=<eigen|hand> order=<str> entry=<range|using>
 //              d=<int> k=<int> seed=<int> nm=<brute|vptree|covertree> em=<dense|randomized> wd=<s> [..]
@@ -378,6 +379,24 @@ int main()
                     ss >> tok;
                     X(j, i) = strtod(tok.c_str(), nullptr);
                 }
+            continue;
+        }
+        if (line.rfind("TRAITS", 0) == 0)
+        {
+            // what is_dummy<T> really says of every callback class the library ships (and of the harness's own)
+#define C13_TRAIT(T) printf("I %s %d\n", #T, (int)is_dummy<T>::value)
+            C13_TRAIT(dummy_kernel_callback<IndexType>);
+            C13_TRAIT(dummy_distance_callback<IndexType>);
+            C13_TRAIT(dummy_features_callback<IndexType>);
+            C13_TRAIT(dummy_kernel_callback<Obj>);
+            C13_TRAIT(eigen_kernel_callback);
+            C13_TRAIT(eigen_distance_callback);
+            C13_TRAIT(eigen_features_callback);
+            C13_TRAIT(precomputed_kernel_callback);
+            C13_TRAIT(precomputed_distance_callback);
+            printf("I harness_UCb %d\n", (int)is_dummy<UCb<0, IndexType>>::value);
+#undef C13_TRAIT
+            printf("IEND\n");
             continue;
         }
         if (line.rfind("NEEDS", 0) == 0)
